@@ -11,6 +11,7 @@ require (
 	github.com/zitadel/oidc/v3 v3.0.0
 	golang.org/x/net v0.36.0
 	golang.org/x/oauth2 v0.29.0
+	github.com/anishathalye/porcupine v1.3.0
 )
 
 require (
